@@ -378,6 +378,68 @@ func runC18(p *core.Prog, r *core.Report) {
 			r.Check(ok, "C18.R3", fmt.Sprintf("unmarshalVT/insert#%d", i+1), "each insertion m.Kv[k] = v is paired with dataSize += len(k)+len(v) in the same block, and dataSize is the returned size", "no matching size update for this insertion", p.Pos(mu.Pos()))
 		}
 	})
+	r.Guard("C18.R1", "unmarshalVT/entry-state", "per-entry decoding state", func() {
+		fn := p.Func(pkgMarsh, "unmarshalVT")
+		msg := p.Named(pkgMarsh+"/pb", "StoreData")
+		kvF := core.FieldOf(msg, "Kv")
+		loops := core.Loops(fn)
+		core.Instrs(fn, func(in ssa.Instruction) {
+			mu, ok := in.(*ssa.MapUpdate)
+			if !ok {
+				return
+			}
+			if f, _ := core.LoadedField(mu.Map); f != kvF {
+				return
+			}
+			// the loop over the message's fields: smallest loop containing the insertion
+			var outer *core.Loop
+			for _, l := range loops {
+				if l.Body[mu.Block()] && (outer == nil || len(l.Body) < len(outer.Body)) {
+					outer = l
+				}
+			}
+			if outer == nil {
+				core.Undecide("unmarshalVT: insertion into Kv is not inside the field loop")
+			}
+			carried := ""
+			for role, v := range map[string]ssa.Value{"key": mu.Key, "value": mu.Value} {
+				seen := map[ssa.Value]bool{}
+				var walk func(v ssa.Value)
+				walk = func(v ssa.Value) {
+					if seen[v] {
+						return
+					}
+					seen[v] = true
+					switch x := v.(type) {
+					case *ssa.Phi:
+						if x.Block() == outer.Header {
+							carried = role
+							return
+						}
+						for _, e := range x.Edges {
+							walk(e)
+						}
+					case *ssa.ChangeType:
+						walk(x.X)
+					case *ssa.Convert:
+						walk(x.X)
+					case *ssa.UnOp:
+						if x.Op == token.MUL {
+							// a spilled variable: every store to the cell
+							for _, st := range core.StoresTo(x.X) {
+								if !outer.Body[st.Block()] {
+									carried = role
+								}
+								walk(st.Val)
+							}
+						}
+					}
+				}
+				walk(v)
+			}
+			r.Check(carried == "", "C18.R1", "unmarshalVT/entry-state", "the key and the value of a Kv entry come from that entry alone: the decoding variables start empty for every entry (an entry that omits a field, or carries an empty one, must not inherit the previous entry's)", "the "+carried+" inserted into Kv can be carried over from the previous entry (variable live across iterations of the field loop)", p.Pos(mu.Pos()))
+		})
+	})
 	r.Guard("C18.R3", "default-marshaller", "default marshaller recounts", func() {
 		def := p.Func(pkgMarsh, "Default")
 		r.Touch(core.FuncName(def))
@@ -509,7 +571,7 @@ func runC18(p *core.Prog, r *core.Report) {
 			r.Check(found, "C18.R4", pr[0], "cached-output files are written with MarshalFast and read with UnmarshalFast (the matching pair)", pr[1]+" not used", p.Pos(fn.Pos()))
 		}
 	})
-	r.MinInstances("C18.R1", 12)
+	r.MinInstances("C18.R1", 13)
 	r.MinInstances("C18.R2", 6)
 	r.MinInstances("C18.R3", 3)
 	r.MinInstances("C18.R4", 4)
